@@ -22,17 +22,17 @@ PROPS = {
     # "also": a second engine whose runs can yield violations of the same property
     # (HISTSIM focus C04 = the stage pipeline with name requests interleaved and
     # path probes, no edits, no restarts: DESIGN 5, C04 "+ HISTSIM states")
-    "C01": {"engine": "cosim", "quick": (480, 40), "thorough": (6400, 40), "params": {},
+    "C01": {"engine": "cosim", "quick": (480, 40), "thorough": (4800, 40), "params": {},
             "also": ("histsim", {"focus": "C04"}, {"quick": (96, 60), "thorough": (960, 60)})},
-    "C04": {"engine": "cosim", "quick": (480, 40), "thorough": (6400, 40), "params": {},
+    "C04": {"engine": "cosim", "quick": (480, 40), "thorough": (4800, 40), "params": {},
             "also": ("histsim", {"focus": "C04"}, {"quick": (96, 60), "thorough": (960, 60)})},
-    "C06": {"engine": "cosim", "quick": (480, 40), "thorough": (6400, 40), "params": {},
+    "C06": {"engine": "cosim", "quick": (480, 40), "thorough": (4800, 40), "params": {},
             "also": ("histsim", {"focus": "C04"}, {"quick": (96, 60), "thorough": (960, 60)})},
     "C14": {"engine": "histsim", "quick": (384, 60), "thorough": (6400, 60), "params": {"focus": "C14"}},
     "C15": {"engine": "histsim", "quick": (384, 60), "thorough": (6400, 60), "params": {"focus": "C15"}},
     "C18": {"engine": "histsim", "quick": (384, 60), "thorough": (6400, 60), "params": {"focus": "C18"}},
-    "C07": {"engine": "envsim", "quick": (480, 30), "thorough": (4800, 30), "params": {"focus": "C07"}},
-    "C08": {"engine": "envsim", "quick": (480, 30), "thorough": (4800, 30), "params": {"focus": "C08"}},
+    "C07": {"engine": "envsim", "quick": (480, 30), "thorough": (2400, 30), "params": {"focus": "C07"}},
+    "C08": {"engine": "envsim", "quick": (480, 30), "thorough": (2400, 30), "params": {"focus": "C08"}},
     "C12": {"engine": "hashsim", "quick": (32, 0), "thorough": (256, 0), "params": {}},
 }
 
